@@ -74,6 +74,11 @@ func genReset(seed uint64, tier, mode string) *Script {
 			c.Kind, c.AS = "rrclient", 65000
 		default:
 			c.Kind, c.AS = "ebgp", uint32(65001+i)
+			if g.p(35) {
+				// graceful restart: the peer's routes are retained while its session is down, and a
+				// soft reset in that window must re-evaluate them as well
+				c.GR = GRCfg{Enabled: true, RestartTime: 120, Families: []string{"ipv4-unicast"}}
+			}
 		}
 		sc.Peers = append(sc.Peers, c)
 	}
@@ -181,7 +186,15 @@ func genReset(seed uint64, tier, mode string) *Script {
 	p1 := Phase{Ops: history(g.rng(2, 8)), Settle: 8}
 	// the change + the reset, concurrent with more route changes
 	p2 := Phase{Settle: 10}
-	p2.Ops = append(p2.Ops, Op{Kind: "switchpolicy", Actor: -1})
+	sw := Op{Kind: "switchpolicy", Actor: -1}
+	for i := range sc.Peers {
+		if sc.Peers[i].GR.Enabled && g.p(60) {
+			// the session is lost (transport failure) just before the policy changes and stays down
+			p2.Ops = append(p2.Ops, Op{Kind: "down", Actor: i, Arg: pick(g, []string{"reset", "close"})})
+			sw.Delay = 1500
+		}
+	}
+	p2.Ops = append(p2.Ops, sw)
 	if g.p(60) {
 		p2.Ops = append(p2.Ops, history(g.rng(1, 6))...)
 	}
